@@ -1,7 +1,8 @@
 (** C10 correspondence interface.
 
     A history case: the namespaces that exist at the start (the first one is the current namespace), the
-    compilation modes the reads are compiled in, and the steps, each followed by the read
+    compilation modes the reads are compiled in, and the steps (C10/BSpec.v [bstep]: a step of
+    C10/Spec.v, entering a binding, leaving the innermost binding), each followed by the read
     requests made after it.  Observable: per step whether it succeeded, per mode the value
     (or error class) of every read.
     A munge case: strings; observable: (munge s, munge s allow_builtins=True) of the real
@@ -9,7 +10,7 @@
 From Coq Require Import List NArith Bool String Ascii.
 Import ListNotations.
 From Verif Require Import Gen.Tables.
-From Verif Require Export Common.ListX C10.Munge C10.Spec C10.Names.
+From Verif Require Export Common.ListX C10.Munge C10.Spec C10.Names C10.BSpec C10.BNames.
 Local Open Scope N_scope.
 
 (** ---- compact literals (the case files are large; Coq parses string literals an order of
@@ -58,7 +59,7 @@ Definition mk_reads (f : rfac) : list readreq :=
        end) (rf_readers f).
 
 Inductive case :=
-| CHist (nss : list str) (modes : list mode) (steps : list (step * list readreq))
+| CHist (nss : list str) (modes : list mode) (steps : list (bstep * list readreq))
 | CMunge (l : list str).
 
 Inductive out :=
@@ -82,20 +83,20 @@ Definition out_eqb (a b : out) : bool :=
   end.
 
 (** ---- model ---- *)
-Fixpoint model_steps (st : state) (modes : list mode) (steps : list (step * list readreq))
+Fixpoint model_steps (st : xstate) (modes : list mode) (steps : list (bstep * list readreq))
   : list (bool * list (list robs)) :=
   match steps with
   | [] => []
   | (s, rqs) :: r =>
-      let '(st', ok) := exec st s in
-      (ok, map (fun md => map (read st' md) rqs) modes) :: model_steps st' modes r
+      let '(st', ok) := xexec st s in
+      (ok, map (fun md => map (xread st' md) rqs) modes) :: model_steps st' modes r
   end.
 
 Definition munge_out (l : list str) : out := OMunge (map (fun s => (munge s, munge_ab s)) l).
 
 Definition model (c : case) : out :=
   match c with
-  | CHist nss modes steps => OHist (model_steps (minit (cur0 nss) nss) modes steps)
+  | CHist nss modes steps => OHist (model_steps (xinit (cur0 nss) nss) modes steps)
   | CMunge l => munge_out l
   end.
 
@@ -107,41 +108,46 @@ Fixpoint all2 {A B} (f : A -> B -> bool) (l1 : list A) (l2 : list B) : bool :=
   | _, _ => false
   end.
 
-Fixpoint spec_steps (st : sstate) (modes : list mode) (steps : list (step * list readreq))
+Fixpoint spec_steps (st : xsstate) (modes : list mode) (steps : list (bstep * list readreq))
          (o : list (bool * list (list robs))) : bool :=
   match steps, o with
   | [], [] => true
   | (s, rqs) :: r, (ok, obs) :: ro =>
-      let '(st', ok') := sexec st s in
+      let '(st', ok') := xsexec st s in
       Bool.eqb ok ok'
-      && all2 (fun md ol => all2 (fun rq ob => read_ok st' md rq ob) rqs ol) modes obs
+      && all2 (fun md ol => all2 (fun rq ob => bread_ok st' md rq ob) rqs ol) modes obs
       && spec_steps st' modes r ro
   | _, _ => false
   end.
 
 Definition spec_ok (c : case) (o : out) : bool :=
   match c, o with
-  | CHist nss modes steps, OHist l => spec_steps (init (cur0 nss) nss) modes steps l
+  | CHist nss modes steps, OHist l => spec_steps (xsinit (cur0 nss) nss) modes steps l
   | CMunge l, _ => out_eqb (munge_out l) o       (* the documented function IS the specification *)
   | _, _ => false
   end.
 
 (** ---- defect tags: bit 1 = two names of one namespace share a module global (F-10a),
          bit 2 = a module alias collides (F-10b), bit 4 = a Var became private after it had
-         been referred / privacy flag changed by a redefinition (F-10c) ---- *)
-Fixpoint hazards (st : state) (h : list step) : bool * bool * bool :=
+         been referred / privacy flag changed by a redefinition (F-10c), bit 8 = a def changed
+         the dynamic marking of a Var that has open binding frames (F-10e) ---- *)
+Fixpoint hazards (st : xstate) (h : list bstep) : bool * bool * bool * bool :=
   match h with
-  | [] => (false, false, false)
+  | [] => (false, false, false, false)
   | s :: r =>
-      let '(a, b, c) := hazards (fst (exec st s)) r in
-      (def_hazard st s || a, ns_hazard st s || b, negb (priv_safe (sp st) s) || c)
+      let '(a, b, c, d) := hazards (fst (xexec st s)) r in
+      match s with
+      | B s0 => (def_hazard (base st) s0 || a, ns_hazard (base st) s0 || b,
+                 negb (priv_safe (sp (base st)) s0) || c, dyn_hazard st s || d)
+      | _ => (a, b, c, d)
+      end
   end.
 
 Definition tag (c : case) : N :=
   match c with
   | CHist nss _ steps =>
-      let '(a, b, c) := hazards (minit (cur0 nss) nss) (map fst steps) in
-      (if a then 1 else 0) + (if b then 2 else 0) + (if c then 4 else 0)
+      let '(a, b, c, d) := hazards (xinit (cur0 nss) nss) (map fst steps) in
+      (if a then 1 else 0) + (if b then 2 else 0) + (if c then 4 else 0) + (if d then 8 else 0)
   | CMunge _ => 0
   end.
 
@@ -154,25 +160,26 @@ Fixpoint zip_idx {A B} (i : N) (l1 : list A) (l2 : list B) : list (N * A * B) :=
   | _, _ => []
   end.
 
-Fixpoint mismatch_steps (i : N) (st : state) (modes : list mode) (steps : list (step * list readreq))
+Fixpoint mismatch_steps (i : N) (st : xstate) (xs : xsstate) (modes : list mode) (steps : list (bstep * list readreq))
          (o : list (bool * list (list robs))) : list (N * N * N * robs * robs * bool) :=
   match steps, o with
   | (s, rqs) :: r, (ok, obs) :: ro =>
-      let '(st', ok') := exec st s in
-      (if Bool.eqb ok ok' then [] else [(i, 99, 99, OErr 0, OErr 0, false)])
+      let '(st', ok') := xexec st s in
+      let '(xs', oks) := xsexec xs s in
+      (if Bool.eqb ok ok' && Bool.eqb ok oks then [] else [(i, 99, 99, OErr (if ok' then 1 else 0), OErr (if oks then 1 else 0), false)])
       ++ flat_map (fun '(mi, md, ol) =>
            flat_map (fun '(ri, rq, ob) =>
-                       let m := read st' md rq in
-                       let okk := read_ok (sp st') md rq ob in
+                       let m := xread st' md rq in
+                       let okk := bread_ok xs' md rq ob in
                        if robs_eqb m ob && okk then [] else [(i, mi, ri, m, ob, okk)])
                     (zip_idx 0 rqs ol))
            (zip_idx 0 modes obs)
-      ++ mismatch_steps (N.succ i) st' modes r ro
+      ++ mismatch_steps (N.succ i) st' xs' modes r ro
   | _, _ => []
   end.
 
 Definition mismatches (c : case) (o : out) :=
   match c, o with
-  | CHist nss modes steps, OHist l => mismatch_steps 0 (minit (cur0 nss) nss) modes steps l
+  | CHist nss modes steps, OHist l => mismatch_steps 0 (xinit (cur0 nss) nss) (xsinit (cur0 nss) nss) modes steps l
   | _, _ => []
   end.
